@@ -39,6 +39,18 @@ def _is_limit_context(parents: dict, node: ast.AST) -> bool:
             return always_raises(p.body)
         if isinstance(p, ast.Raise):
             return True  # used to build the error message
+        if isinstance(p, ast.Assign) and p.value is node and len(p.targets) == 1 and isinstance(p.targets[0], ast.Name):
+            # `limit = self.max_duration`: a local bound once; the read is a limit read when every use of the local is
+            fn = p
+            while fn is not None and not isinstance(fn, (ast.FunctionDef, ast.AsyncFunctionDef)):
+                fn = parents.get(id(fn))
+            name = p.targets[0].id
+            if fn is not None:
+                stores = [x for x in ast.walk(fn) if isinstance(x, ast.Name) and x.id == name and isinstance(x.ctx, ast.Store)]
+                loads = [x for x in ast.walk(fn) if isinstance(x, ast.Name) and x.id == name and isinstance(x.ctx, ast.Load)]
+                if len(stores) == 1 and loads and all(_is_limit_context(parents, x) for x in loads):
+                    return True
+            return False
         if isinstance(p, (ast.stmt,)):
             return False
         child = p
